@@ -33,4 +33,19 @@ for pid in claimed:
         print(vlib.build_modelrun(pid.lower()))
     if hasattr(importlib.import_module("checks." + pid), "presetup"):
         importlib.import_module("checks." + pid).presetup()
+# second layers (C02b, C02c, C14b, C16b ...) and any other engine: prebuilt so that the first check run does not pay
+# for it; a failure here is not fatal (the check that needs the engine builds it itself and reports)
+import glob
+for f in sorted(glob.glob("coq/Extract_*.v")):
+    eng = os.path.basename(f)[8:-2]
+    if eng.upper() in claimed:
+        continue
+    try:
+        pf = "coq/Properties_%s.v" % (eng[0].upper() + eng[1:])
+        if os.path.exists(pf):
+            r = vlib.coq_check_properties(eng[0].upper() + eng[1:])
+            print("Properties_%s.vo %s" % (eng, "checked" if r["ok"] else "DOES NOT CHECK (not a claimed property file)"))
+        print(vlib.build_modelrun(eng))
+    except Exception as e:
+        print("note: engine %s not prebuilt: %s" % (eng, str(e)[:200]))
 PY
